@@ -136,7 +136,7 @@ def build_objects(flavour, extra_defs=()):
     todo, objs = [], []
     for s in repo_sources():
         p = os.path.join(REPO, s)
-        key = sha(hdr, open(p, "rb").read(), " ".join(flags), s)[:32]
+        key = sha(hdr, open(p, "rb").read(), " ".join(f for f in flags if not f.startswith("-I")), s)[:32]
         o = os.path.join(odir, key + ".o")
         objs.append(o)
         if not os.path.exists(o):
@@ -165,7 +165,7 @@ def build_harness(name, flavour="asan", extra_srcs=(), libs=("-ljsoncpp", "-lsys
     odir = ensure_dir(os.path.join(SCRATCH, "obj", flavour))
     repo_hdr = _tree_hash(os.path.join(REPO, "src"), (".h",))
     for s in srcs:
-        key = sha(hh, repo_hdr, open(s, "rb").read(), " ".join(hflags), s)[:32]
+        key = sha(hh, repo_hdr, open(s, "rb").read(), " ".join(f for f in hflags if not f.startswith("-I")), os.path.basename(s))[:32]
         o = os.path.join(odir, "h_" + key + ".o")
         hobjs.append(o)
         if not os.path.exists(o):
